@@ -292,7 +292,10 @@ impl<'a> Trees<'a> {
         change: TreeChange,
         fetch_free: impl Fn() -> usize + Copy,
     ) -> Result<()> {
-        match self.entries[id.0].try_update(|e| e.change(class, free, change.clone(), fetch_free)) {
+        let Some(entry) = self.entries.get(id.0) else {
+            return Err(Error::Argument);
+        };
+        match entry.try_update(|e| e.change(class, free, change.clone(), fetch_free)) {
             Ok(_) => Ok(()),
             Err(_) => Err(Error::Memory),
         }
